@@ -51,6 +51,32 @@ Definition credit (a : addr) (d x : Z) (s : state) : state :=
 Definition set_dels_start (s : state) (dl : list (k2 * del_rec)) (ix : list (k2 * unit)) (st : list (k2 * start_rec)) : state :=
   set_stake (set_start s st) (set_dels (stake s) dl ix).
 
+(* ---------- validator slash: the unbonding entries ---------- *)
+(* Keeper.Slash(cons, infractionHeight < current height, power, factor) -> SlashUnbondingDelegation for every
+   unbonding delegation from the validator: an entry created before the infraction, or already mature and not on
+   hold, is skipped; otherwise its balance goes down by min(floor(factor * InitialBalance), Balance) and that much
+   is burned from the not-bonded pool.  `fr` is the factor's raw 10^18-scaled integer (LegacyDec.MulInt is exact,
+   TruncateInt floors).  The bonded-stake part of the slash is validator-side; the redelegation-entry part (Unbond
+   at the destination validator with its distribution hooks) is not in this model (real app: scenarios + twin run). *)
+Definition slash_entry (nw ih fr : Z) (e : ubd_entry) : ubd_entry :=
+  if (ue_height e <? ih) || ((ue_time e <=? nw) && (ue_hold e <=? 0)) then e
+  else {| ue_height := ue_height e; ue_time := ue_time e; ue_init := ue_init e;
+          ue_bal := ue_bal e - Z.min ((ue_init e * fr) / 10 ^ 18) (ue_bal e); ue_id := ue_id e; ue_hold := ue_hold e |}.
+
+Definition slash_rec (nw ih fr : Z) (u : ubd_rec) : ubd_rec :=
+  {| u_del := u_del u; u_val := u_val u; u_entries := map (slash_entry nw ih fr) (u_entries u) |}.
+
+Definition burned_rec (nw ih fr : Z) (u : ubd_rec) : Z :=
+  sum_bal (u_entries u) - sum_bal (map (slash_entry nw ih fr) (u_entries u)).
+
+Definition slash_ubds (s : state) (v ih fr : Z) : state :=
+  let k := stake s in
+  let hit (kv : k2 * ubd_rec) := snd (fst kv) =? v in
+  let ubds' := map (fun kv => if hit kv then (fst kv, slash_rec (now s) ih fr (snd kv)) else kv) (ubds k) in
+  let burned := fold_right (fun kv acc => (if hit kv then burned_rec (now s) ih fr (snd kv) else 0) + acc) 0 (ubds k) in
+  credit (pool_nb (cfg s)) (bond_denom (cfg s)) (- burned)
+         (set_stake s (set_ubd k ubds' (idx33 k) (ubdq k))).
+
 Section Follow.
   Variable env : Type.
   Variable ask : env -> query -> vans.
